@@ -3,5 +3,5 @@ From SE Require Import Codec.CodecIO.
 Require Import ExtrOcamlBasic.
 Extraction "semodel.ml" N_of_digits Z_of_digits digits_of_N tc_lookup
   hex_of_N name_of_code label
-  decode_lab decode decode_matrix encode enc_node schema_k kind_of vals_of type_code child_exprs
+  decode_lab decode decode_matrix encode encode_matrix enc_node schema_k kind_of vals_of type_code child_exprs
   wt_expr wt_addr wt_kids expr_eqb hash derives TC_Count.
